@@ -5,6 +5,7 @@ import (
 	"errors"
 	"fmt"
 	"io"
+	"net/http"
 	"net/url"
 
 	"github.com/regclient/regclient/internal/httplink"
@@ -58,6 +59,12 @@ func (reg *Reg) ReferrerList(ctx context.Context, rSubject ref.Ref, opts ...sche
 		if !ok || referrerEnabled {
 			// attempt to call the referrer API
 			rl, err = reg.referrerListByAPI(ctx, r, config)
+			var urlErr *url.Error
+			if err != nil && (errors.As(err, &urlErr) || errors.Is(err, errs.ErrRetryNeeded)) {
+				// the request itself failed (connection, timeout, overloaded registry), that says nothing about the API: do not answer from the fallback tag
+				rl.Subject = rSubject
+				return rl, err
+			}
 			if !ok {
 				// save the referrer API state
 				reg.featureSet("referrer", r.Registry, r.Repository, err == nil)
@@ -141,6 +148,10 @@ func (reg *Reg) referrerListByAPIPage(ctx context.Context, r ref.Ref, config sch
 	}
 	resp, err := reg.reghttp.Do(ctx, req)
 	if err != nil {
+		if hr := resp.HTTPResponse(); hr != nil && (hr.StatusCode == http.StatusTooManyRequests || hr.StatusCode >= 500) {
+			// the registry is overloaded or failing, that says nothing about the API
+			return rl, nil, fmt.Errorf("failed to get referrers %s: %w%.0w", r.CommonName(), err, errs.ErrRetryNeeded)
+		}
 		return rl, nil, fmt.Errorf("failed to get referrers %s: %w", r.CommonName(), err)
 	}
 	defer resp.Close()
